@@ -175,6 +175,29 @@ def poll_shape(v):
     return "?", v
 
 
+def poll_shape_on(o, v):
+    """poll_shape, also for a value that is handed on as it came (`other => other`): its shape is what the path knows about it"""
+    k, pl = poll_shape(v)
+    if k != "?" or is_agg(v):
+        return k, pl
+    pv = o.cons.variant_of(v)
+    if pv == "Pending":
+        return "Pending", None
+    if pv == "Ready":
+        p1 = ("payload", v, "Ready", "0")
+        ov = o.cons.variant_of(p1)
+        if ov == "None":
+            return "None", None
+        if ov == "Some":
+            p2 = ("payload", p1, "Some", "0")
+            rv = o.cons.variant_of(p2)
+            if rv in ("Ok", "Err"):
+                return rv, ("payload", p2, rv, "0")
+            return "Some?", p2
+        return "Ready?", p1
+    return k, pl
+
+
 def cons_zone(o, extra=(), terms=()):
     cc = P.Cons()
     cc.rel = list(o.cons.rel)
